@@ -19,7 +19,7 @@
                                     A = attribute step, I = string item step, N = integer item
                                     step (<name> is then a decimal number)            -> result class
      gen <sandboxed> <async> <prefix-term>   -> show (gen m e) | calls=<n> gates=<n> no_raw=<b> gated=<b>
-     gate <unsafe_callable 0|1> <alters_data 0|1> <bound str.format 0|1> <policy default|0|1> [<__call__ unsafe 0|1> <__call__ alters 0|1>]
+     gate <unsafe_callable 0|1> <alters_data 0|1> <bound str.format 0|1> <policy default|0|1> [<type __call__ unsafe> <type __call__ alters> [<instance __call__ unsafe> <instance __call__ alters>]]
                                     SandboxedEnvironment.call on such a callable under the default
                                     or an overridden is_safe_callable     -> events | outcome
         term: N x | C hex | GA t a | GI t t | SL t o o o | CALL t n t.. k (a t).. o o
@@ -150,9 +150,12 @@ let () =
       print_endline (ostr (X.show t) ^ " | calls=" ^ string_of_int (int_of_nat (X.count_calls e)) ^ " gates="
                      ^ string_of_int (int_of_nat (X.count_gates t)) ^ " no_raw=" ^ b (X.no_raw t) ^ " gated=" ^ b (X.gated t))
     | "gate" :: u :: a :: fm :: pol :: more ->
-      let (cu, ca) = (match more with [x; y] -> (x = "1", y = "1") | _ -> (false, false)) in
+      let (cu, ca, iu, ia) = (match more with
+        | [x; y] -> (x = "1", y = "1", false, false)
+        | [x; y; z; w] -> (x = "1", y = "1", z = "1", w = "1")
+        | _ -> (false, false, false, false)) in
       let c = { X.c_id = X.O; c_unsafe = (u = "1"); c_alters = (a = "1"); c_format = (fm = "1");
-                c_call_unsafe = cu; c_call_alters = ca } in
+                c_call_unsafe = cu; c_call_alters = ca; c_icall_unsafe = iu; c_icall_alters = ia } in
       let verdict = (match pol with "default" -> X.is_safe_callable_default c | "1" -> true | _ -> false) in
       let (log, o) = X.gate_events verdict c in
       let ev = function X.EvCheck (_, v) -> "check:" ^ b v | X.EvInvoke _ -> "invoke" | X.EvFormat _ -> "format" in
